@@ -131,7 +131,7 @@ theorem C07_reachable_roundtrip (o : Onto) (h : Reachable o) : Reachable (truncO
 `build_with_defaults` — the Builder, `from_bytes` of ANY valid v1–v3 file, the two text loaders,
 `sub_ontology` — is `Reachable`.  Proved: the Builder route and closure under the round trip (so also
 a round trip of a round trip).  Missing: the other constructors end in the same builder steps
-(`Onto.loadFacts`, `C09_file_partial`, C14) but on records that are not known to come from a
+(`Onto.loadFacts`, `C09_file_in_order`, C14) but on records that are not known to come from a
 well-formed ontology (a foreign file may list a parent that is no term, or the same record id
 twice — then `Reachable` is in fact false); the correspondence check runs the round trip on
 ontologies from all of them. -/
